@@ -115,14 +115,26 @@ def start_with_failures(scn):
     return s, ea, pl
 
 
-def expect(scn, s, ea, pl, fv):
+class expect(object):
     """the outcome the reference semantics gives (status always; output / error name when unambiguous),
     and: after the execution FAILED no further task request leaves the engine"""
-    probs = []
-    if pl is not None:
-        a = common.driver([c01.model_line(scn.machine, scn.data, ea, pl.oracle())])[0].split("\t")
-        if a[0] == "ok":
-            m = json.loads(a[1])
+
+    @staticmethod
+    def pre(scn, s, ea, pl, fv):
+        term_n = None
+        for fr in s.broker.log:
+            if fr["op"] == "publish" and fr["exchange"] == "asl_workflow_engine" and not fr["routing_key"].endswith(".RUNNING"):
+                term_n = fr["n"] if term_n is None else term_n
+        late = []
+        if term_n is not None:
+            late = [fr["routing_key"] for fr in s.broker.log if fr["n"] > term_n and fr["op"] == "publish" and fr["exchange"] == ""
+                    and fr["routing_key"] in s.worker_plan and fr.get("conn") != "worker"]
+        return {"late": late}
+
+    @staticmethod
+    def post(scn, fv, pre, m):
+        probs = []
+        if m is not None:
             mv = c01.model_view(m)
             if mv["status"] in ("SUCCEEDED", "FAILED"):
                 if fv.get("status") != mv["status"]:
@@ -135,17 +147,9 @@ def expect(scn, s, ea, pl, fv):
                             probs.append(("C06.fails_with_a_branch_error", {"impl": fv, "allowed": scn.extra.get("errors")}))
                     elif fv.get("error") != mv["error"]:
                         probs.append(("C06.fails_with_branch_error", {"impl": fv, "model": mv}))
-    # no task request after the terminal notification
-    term_n = None
-    for fr in s.broker.log:
-        if fr["op"] == "publish" and fr["exchange"] == "asl_workflow_engine" and not fr["routing_key"].endswith(".RUNNING"):
-            term_n = fr["n"] if term_n is None else term_n
-    if term_n is not None:
-        late = [fr["routing_key"] for fr in s.broker.log if fr["n"] > term_n and fr["op"] == "publish" and fr["exchange"] == ""
-                and fr["routing_key"] in s.worker_plan and fr.get("conn") != "worker"]
-        if late:
-            probs.append(("C06.no_progress_after_failure", {"late_requests": late}))
-    return probs
+        if pre and pre["late"]:
+            probs.append(("C06.no_progress_after_failure", {"late_requests": pre["late"]}))
+        return probs
 
 
 def run(chk):
